@@ -644,8 +644,8 @@ shadow main { assert true }
 }
 struct Box {
     r: Result<int, string>,
-    m: HashMap<string, array<int>>,
-    f: fn(int, HashMap<string, int>) -> Result<int, string>
+    f: fn(int, HashMap<string, int>) -> int,
+    g: array<HashMap<int, string>>
 }
 fn wrap(x: int) -> Result<array<int>, string> {
     return Result.Error { error: "no" }
@@ -657,31 +657,50 @@ fn main() -> int {
 }
 shadow main { assert true }
 """,
-    # module-qualified names (two and three parts) in type and call positions
-    "qualified_types": b"""import "modules/std/collections/stringbuilder.nano" as Sb
-struct Holder {
+    "generic_hashmap_nested": b"""struct Deep {
+    m: HashMap<string, array<int>>,
+    n: HashMap<string, HashMap<string, int>>
+}
+fn main() -> int { return 0 }
+shadow main { assert true }
+""",
+    # module-qualified type names (two and three parts) in every type position; all of it parses, the type checker
+    # is reached and has to look the names up
+    "qualified_types": b"""struct Holder {
     one: Mod.Thing,
     two: Mod.Inner.Thing,
     three: array<Mod.Inner.Thing>
 }
 union Wrap {
     A { v: Mod.Inner.Thing },
-    B { w: Sb.StringBuilder }
+    B { w: Mod.Thing }
 }
 fn ret_two() -> Mod.Thing {
     return 0
 }
-fn ret_three(p: Mod.Inner.Thing, q: Sb.StringBuilder) -> Mod.Inner.Thing {
+fn ret_three(p: Mod.Inner.Thing, q: Mod.Thing) -> Mod.Inner.Thing {
     let a: Mod.Inner.Thing = 0
     let b: Mod.Thing = 0
-    let c: Sb.StringBuilder = (Sb.sb_new)
-    let d: Mod.Thing = Mod.Thing { x: 1 }
-    let e: int = (Mod.Inner.func 1)
-    let f: int = Mod.Inner.value
-    match p {
-        Mod.Some(s) => { return 0 }
-    }
+    let mut c: Mod.Inner.Other = 0
     return a
+}
+fn main() -> int {
+    return 0
+}
+shadow main { assert true }
+""",
+    "qualified_let": b"fn main() -> int {\n    let x: Mod.Inner.Thing = 0\n    return 0\n}\nshadow main { assert true }\n",
+    "qualified_ret": b"fn g() -> Mod.Inner.Thing {\n    return 0\n}\nfn main() -> int { return 0 }\nshadow main { assert true }\n",
+    "qualified_field": b"struct S {\n    f: Mod.Inner.Thing\n}\nfn main() -> int { return 0 }\nshadow main { assert true }\n",
+    # module-qualified names in expression positions
+    "qualified_exprs": b"""import "modules/std/collections/stringbuilder.nano" as Sb
+fn use_them(n: int) -> int {
+    let c: StringBuilder = (Sb.sb_new)
+    let e: int = (Mod.func 1 2)
+    let f: int = Mod.value
+    let g: int = Mod.Inner.value
+    let h: Mod.Thing = Mod.Thing { x: 1 }
+    return (+ e f)
 }
 fn main() -> int {
     return 0
@@ -734,7 +753,9 @@ shadow main { assert true }
 }
 
 # seeds whose every token boundary / closing bracket / identifier is enumerated in BOTH tiers
-PRIORITY_SEEDS = ("generic_types", "generic_nested", "qualified_types", "contracts_field")
+PRIORITY_SEEDS = ("generic_types", "generic_nested", "generic_hashmap_nested", "qualified_types", "qualified_let",
+                  "qualified_ret", "qualified_field", "qualified_exprs", "contracts_field")
+QUALIFIED_SEEDS = ("qualified_types", "qualified_let", "qualified_ret", "qualified_field", "qualified_exprs")
 
 # multi-file inputs: the main file is always written as i.nano, the others next to it
 def _m(body=b""):
